@@ -119,6 +119,40 @@ compile.compile_vform(vf, on_demand=%(od)r)
 '''
 
 
+STRFORMS = {'strl2': 'f * v * dx', 'strmass': 'f * u * v * dx'}
+
+
+def str_field(kind, dim, k=0):
+    """Input for the name f of a string problem: a B-spline function of the PARAMETERS (parse_vf makes it a
+    parametric input field) or a plain callable of the PHYSICAL coordinates."""
+    from pyiga import bspline
+    if kind == 'spline':
+        kv = bspline.make_knots(1, 0.0, 1.0, 1)
+        rng = np.random.RandomState(7 + k)
+        return bspline.BSplineFunc(dim * (kv,), 1.0 + rng.uniform(0, 1, dim * (2,)))
+    return (lambda *x: 1.0 + 0.5 * x[0] - 0.25 * x[-1]) if k == 0 else (lambda *x: 2.0 - 0.5 * x[0] + 0.125 * x[-1])
+
+
+_STR_SNIPPET = r'''
+import sys
+sys.path.insert(0, %(verif)r)
+from vsim import env
+env.setup_import()
+from vsim import hsim_c03
+from pyiga import assemble, bspline, hierarchical
+dim = %(dim)d
+kv = bspline.make_knots(2, 0.0, 1.0, 2)
+kvs = dim * (kv,)
+f = hsim_c03.str_field(%(fkind)r, dim)
+geo = hsim_c03.make_geo('identity', dim)
+expr = hsim_c03.STRFORMS[%(sname)r]
+assemble.assemble(expr, kvs, f=f, geo=geo)                       # tensor-product route
+hs = hierarchical.HSpace(kvs)
+hs.refine({0: [dim * (0,)]})
+assemble.assemble(expr, hs, f=f, geo=geo)                        # hierarchical route (on-demand assemblers)
+'''
+
+
 def precompile(dims=(1, 2)):
     """Compile every (form, dim, on_demand) variant used by the runs once, in
     parallel subprocesses, into this check's private cache."""
@@ -131,10 +165,17 @@ def precompile(dims=(1, 2)):
                     continue    # shipped precompiled
                 jobs.append((name, dim, od))
     verif = os.path.dirname(os.path.dirname(os.path.abspath(__file__)))
+    for dim in dims:
+        for sname in STRFORMS:
+            for fk in ('spline', 'callable'):
+                jobs.append(('str:%s:%s' % (sname, fk), dim, None))
 
     def one(job):
         name, dim, od = job
-        code = _COMPILE_SNIPPET % dict(verif=verif, name=name, dim=dim, od=od)
+        if name.startswith('str:'):
+            code = _STR_SNIPPET % dict(verif=verif, sname=name.split(':')[1], fkind=name.split(':')[2], dim=dim)
+        else:
+            code = _COMPILE_SNIPPET % dict(verif=verif, name=name, dim=dim, od=od)
         p = subprocess.run([sys.executable, '-c', code], stdout=subprocess.PIPE, stderr=subprocess.STDOUT,
                            env=dict(os.environ), timeout=900)
         return job, p.returncode, p.stdout.decode(errors='replace')[-1500:]
@@ -180,6 +221,8 @@ class State:
                 return 1.0 + np.sin(2.0 * x[0]) + 0.5 * np.cos(x[-1])
             return 1.0 + 0.5 * x[0] - 0.25 * x[-1]
         args = {'geo': geo, 'f': f}
+        if q.chance(20):
+            return self.check_string(step, geo, curved)
         name = ALLFORMS[q.choice(len(ALLFORMS))]
         ctx.count('assemble.' + name)
         sig = dict(what='assemble', form=name)
@@ -266,3 +309,63 @@ class State:
         if symmetric_form:
             ctx.count('assemble.symmetric.%s' % symflag)
         return True
+
+    def check_string(self, step, geo, curved):
+        """Problems given as STRINGS through assemble(str, hspace, ...): the same expression is assembled repeatedly
+        along the history with the name f bound alternately to a spline of the parameters and to a plain function of
+        the physical coordinates (anything remembered between calls must not mix them up)."""
+        w = self.w
+        ctx, hs, m, cfg = w.ctx, w.hs, w.model, w.cfg
+        from pyiga import assemble
+        dim = cfg['dim']
+        L = hs.numlevels
+        q = ctx.ch.stream('data')
+        sname = q.pick(sorted(STRFORMS))
+        fkind = q.pick(['spline', 'callable'])
+        k = q.choice(2)
+        f = str_field(fkind, dim, k)
+        expr = STRFORMS[sname]
+        symflag = bool(q.choice(2)) if sname == 'strmass' else False
+        ctx.count('assemble.%s.%s' % (sname, fkind))
+        ctx.log(['assemble-string', expr, fkind, k, symflag])
+        sig = dict(what='assemble', form=sname)
+        IM = m.represent_fine_hb()
+        T = hs.thb_to_hb()
+        trunc = bool(hs.truncate)
+        kw = dict(symmetric=symflag) if sname == 'strmass' else {}
+        A = ctx.call('assemble(string, hspace)', assemble.assemble, expr, hs, f=f, geo=geo, **kw)
+        if A is RAISED():
+            return False
+
+        def tp(kvs):
+            return assemble.assemble(expr, kvs, f=str_field(fkind, dim, k), geo=geo)
+        if sname == 'strl2':
+            if curved:
+                want = levelwise_reference_vec(m, [np.asarray(tp(hs.knotvectors(kk))).ravel() for kk in range(L)])
+            else:
+                want = IM.T @ np.asarray(tp(hs.knotvectors(L - 1))).ravel()
+            if trunc:
+                want = T.T @ want
+            b = np.asarray(A, float).ravel()
+            sc = max(1e-300, np.abs(want).max())
+            ctx.check(b.shape == want.shape and np.abs(b - want).max() <= 1e-10 * sc, 'functional-galerkin',
+                      lambda: 'string problem %r with f a %s, truncate=%s, %d levels, geo %s: differs from the reference by %.3g '
+                      '(scale %.3g), history %s' % (expr, fkind, trunc, L, self.geo_kind,
+                                                    np.abs(b - want).max() if b.shape == want.shape else -1, sc, w.history),
+                      dict(sig, truncate=trunc))
+            return True
+        if curved:
+            want = sp.csr_matrix(levelwise_reference(m, [tp(hs.knotvectors(kk)) for kk in range(L)]))
+        else:
+            want = IM.T @ tp(hs.knotvectors(L - 1)) @ IM
+        if trunc:
+            want = T.T @ want @ T
+        sc = max(1e-300, maxabs(want))
+        ok = (A.shape == want.shape)
+        err = maxabs(A - want) if ok else -1
+        ctx.check(ok and err <= 1e-10 * sc, 'matrix-galerkin',
+                  lambda: 'string problem %r with f a %s, symmetric=%s, truncate=%s, %d levels, geo %s: differs from the reference by '
+                  '%.3g (scale %.3g), history %s' % (expr, fkind, symflag, trunc, L, self.geo_kind, err, sc, w.history),
+                  dict(sig, truncate=trunc, symmetric=symflag))
+        return True
+
